@@ -50,10 +50,12 @@ Definition approved_recursive : list string := [
   "cdd.compound.exmod_utils|get_module_contents"; "cdd.shared.ast_utils|cmp_ast"; "cdd.shared.ast_utils|get_value";
   "cdd.shared.parse.utils.parser_utils|infer"
 ].
+(* no module of the package uses a regular-expression matcher (the one library call whose time is not polynomially bounded) *)
+Definition approved_regex : list string := [].
 Definition all_in (approved l : list string) : bool := forallb (fun s => existsb (String.eqb s) approved) l.
 Theorem C11_inventory :
-  all_in approved_loops while_loops = true /\ all_in approved_recursive self_recursive = true.
-Proof. split; vm_compute; reflexivity. Qed.
+  all_in approved_loops while_loops = true /\ all_in approved_recursive self_recursive = true /\ all_in approved_regex regex_uses = true.
+Proof. repeat split; vm_compute; reflexivity. Qed.
 Print Assumptions C11_inventory.
 
 Example C11_inventory_nonempty : List.length while_loops = 6%nat.
